@@ -10,14 +10,24 @@ Legs
      O/T/TL/V/L attributes printed by unber equal the python walk of x, for well-formed x;
      on mutated / truncated / random / deeply nested input unber must exit by itself
      (0, or EX_DATAERR with a diagnostic): a signal or a sanitizer report is a failure.
+     Nesting: unber walks at most UNBER_MAX_NESTING_LEVEL (read from the source; the model's
+     constant must agree) constructed TLVs inside one another; well-formed input nested up to
+     the limit must be accepted (also with a quarter of the default stack), deeper input must
+     be answered with the "Too deep nesting" diagnostic - never with a stack overflow.
 """
-import json, os, re, subprocess
+import json, os, re, resource, subprocess
 from concurrent.futures import ThreadPoolExecutor
 from .. import build, build_tools
 
 KF_NONMINIMAL = "F8"     # enber cannot reproduce non-minimal length forms
-KF_STACK = "F41"         # unbounded recursion of process_deeper: stack overflow on deep nesting
-STACK_REGION_DEPTH = 12000
+# (F41, unbounded recursion of process_deeper, is repaired: no matcher - a crash on deep nesting is a violation)
+SMALL_STACK_KB = 2048    # a quarter of the usual 8 MB: nesting at the limit must fit (ASan build included)
+
+def nesting_limit():
+    """UNBER_MAX_NESTING_LEVEL of the tree under test (None: the source has no such limit)"""
+    src = open(os.path.join(build.REPO, "asn1-tools", "unber", "libasn1_unber_tool.c"), encoding="latin1").read()
+    m = re.search(r"^#define\s+UNBER_MAX_NESTING_LEVEL\s+(\d+)\s*$", src, re.M)
+    return int(m.group(1)) if m else None
 
 TOOL_ENV = dict(os.environ)
 TOOL_ENV["ASAN_OPTIONS"] = "detect_leaks=0:abort_on_error=0:exitcode=99:allocator_may_return_null=1"
@@ -276,10 +286,13 @@ def fixed_malformed():
 
 # ------------------------------------------------------------------ running the real tools
 
-def run_tool(cmd, data, timeout=300, discard_stdout=False):
+def run_tool(cmd, data, timeout=300, discard_stdout=False, stack_kb=None):
+    def small_stack():
+        resource.setrlimit(resource.RLIMIT_STACK, (stack_kb * 1024, stack_kb * 1024))
     try:
         p = subprocess.run(cmd, input=data, stdout=subprocess.DEVNULL if discard_stdout else subprocess.PIPE,
-                           stderr=subprocess.PIPE, env=TOOL_ENV, timeout=timeout)
+                           stderr=subprocess.PIPE, env=TOOL_ENV, timeout=timeout,
+                           preexec_fn=small_stack if stack_kb else None)
         return p.returncode, (b"" if discard_stdout else p.stdout), p.stderr.decode("latin1")
     except subprocess.TimeoutExpired:
         return "timeout", b"", "timeout after %ds" % timeout
@@ -296,7 +309,8 @@ def crash_summary(rc, err):
 UNBER_DIAG = [("Too long TL sequence", ">=", "tooLongLimit"), ("Too long TL sequence", "bytes)", "tooLongBuf"),
               ("Unexpected end of file (TL)", "", "eofTL"), ("Fatal error decoding tag", "", "badTag"),
               ("Fatal error decoding value length", "", "badLen"), ("Outer tag length", "", "tlMismatch"),
-              ("advertizes length", "", "lenExceeds"), ("Unexpected end of file (V)", "", "eofV")]
+              ("advertizes length", "", "lenExceeds"), ("Unexpected end of file (V)", "", "eofV"),
+              ("Too deep nesting", "", "tooDeep")]
 ENBER_DIAG = [("Missing '<'", "missingOpen"), ("Invalid charset", "charset"), ("Missing '>'", "missingClose"),
               ("Multiple tags per line", "multipleTags"), ("Expected \"C\"/\"P\"/\"I\"", "badForm"),
               ("Detected pretty-printing", "pretty"), ("Mandatory attribute", "noAttr"), ("Invalid TL or V value", "badTLV"),
@@ -363,6 +377,10 @@ def run(ctx):
     ctx.lean()
     rng = ctx.rng
     q = ctx.quick
+    limit = nesting_limit()
+    if limit is None:
+        ctx.broken.append({"kind": "correspondence", "name": "unber-nesting-limit",
+                           "msg": "asn1-tools/unber/libasn1_unber_tool.c defines no UNBER_MAX_NESTING_LEVEL (the model has one)"})
     ctx.cov["rule"] = ("inputs: python TLV forests (boundary set + random; any class, tag numbers to 2^30-1, definite/indefinite/"
                        "mixed, long-form and non-minimal lengths, big contents), their mutations/truncations, random bytes, deep nesting; "
                        "each is run through the real `unber -p` (and `enber`) process and through the Lean model; "
@@ -456,6 +474,11 @@ def run(ctx):
                 if not ctx.match_finding(lambda f: f["id"] == KF_NONMINIMAL):
                     pfail.append(("nonmin-header", "unber rejects a well-formed TL longer than 32 octets", {"input_hex": hx(x), "stderr": err[:500]}))
                 continue
+        if limit is not None and depth_of(forest) > limit:
+            if unber_status(rc, err) != "fail:tooDeep":
+                pfail.append(("nesting", f"nesting {depth_of(forest)} > {limit} must be answered with the nesting diagnostic: exit {rc} {err.strip()[:160]}",
+                              {"input_hex": hx(x)[:100000], "stderr": err[:500]}))
+            continue
         if rc != 0:
             pfail.append(("reject", "unber -p rejects a well-formed BER input: " + err.strip()[:200], {"input_hex": hx(x)[:100000], "stderr": err[:500]}))
             continue
@@ -474,33 +497,75 @@ def run(ctx):
         texts_for_enber.append((kind, x, out))
     ctx.cov["predicate"]["unber_safety_and_fields"] = {"cases": nP, "failures": len(pfail)}
 
-    # deep nesting: safety only (output is quadratic in the depth, so it is discarded)
-    deep = [("deep-indef-%d" % d, b"\x30\x80" * d + b"\x00\x00" * d) for d in ([2000, 10000])]
-    deep += [("deep-indef-trunc-10000", b"\x30\x80" * 10000), ("deep-tagonly-10000", b"\x3f" * 10000)]
-    d = 3000; body = b""
-    for i in range(d):
-        body = b"\x30" + enc_length(len(body), None) + body
-    deep.append(("deep-definite-3000", body))
-    if not q:
-        deep.append(("deep-mixed-10000", b"".join(rng.choice([b"\x30\x80", b"\xa1\x80", b"\x7f\x64\x80"]) for _ in range(10000))))
-    dres = pmap(lambda nx: run_tool([unber, "-p", "-"], nx[1], discard_stdout=True), deep)
-    for (name, x), (rc, _, err) in zip(deep, dres):
+    # deep nesting (output is quadratic in the depth, so it is discarded; K compares the exit status / diagnostic
+    # with the model's `unber_st`, P compares it with what the nesting rule demands)
+    L = limit if limit is not None else 2048
+    def indef(d): return b"\x30\x80" * d + b"\x00\x00" * d
+    def definite(d):
+        body = b""
+        for _ in range(d): body = b"\x30" + enc_length(len(body), None) + body
+        return body
+    def mixed(d):
+        body = b"\x05\x00"
+        forms = [rng.choice("CI") for _ in range(d)]
+        for f in forms:                                    # innermost first
+            ident = rng.choice([b"\x30", b"\xa1", b"\x7f\x64"])
+            if f == "I": body = ident + b"\x80" + body + b"\x00\x00"
+            else: body = ident + enc_length(len(body), None) + body
+        return body
+    deep = [("deep-indef-2000", indef(2000), "ok" if L >= 2000 else "fail:tooDeep", None),
+            (f"deep-indef-{L - 1}", indef(L - 1), "ok", None),
+            (f"deep-indef-{L}", indef(L), "ok", None),
+            (f"deep-indef-{L}-small-stack", indef(L), "ok", SMALL_STACK_KB),
+            (f"deep-indef-{L + 1}", indef(L + 1), "fail:tooDeep", None),
+            (f"deep-indef-{L + 1}-small-stack", indef(L + 1), "fail:tooDeep", SMALL_STACK_KB),
+            ("deep-indef-10000", indef(10000), "fail:tooDeep", None),
+            (f"deep-indef-trunc-{L}", b"\x30\x80" * L, "fail:eofTL", None),
+            (f"deep-indef-trunc-{L + 1}", b"\x30\x80" * (L + 1), "fail:tooDeep", None),
+            ("deep-indef-trunc-10000", b"\x30\x80" * 10000, "fail:tooDeep", None),
+            ("3080 x 100000", b"\x30\x80" * 100000, "fail:tooDeep", None),          # the former F41 witness
+            (f"deep-definite-{L}", definite(L), "ok", None),
+            (f"deep-definite-{L + 1}", definite(L + 1), "fail:tooDeep", None),
+            (f"deep-definite-{L + 1}-small-stack", definite(L + 1), "fail:tooDeep", SMALL_STACK_KB),
+            ("deep-definite-3000", definite(3000), "fail:tooDeep" if L < 3000 else "ok", None),
+            ("deep-tagonly-10000", b"\x3f" * 10000, "fail", None)]
+    for d in ([L, L + 1] if q else [L - 1, L, L + 1, L + 2, 3 * L]):
+        deep.append((f"deep-mixed-{d}", mixed(d), "ok" if d <= L else "fail:tooDeep", None))
+    dres = pmap(lambda c: run_tool([unber, "-p", "-"], c[1], discard_stdout=True, stack_kb=c[3]), deep)
+    dmodel = None
+    if getattr(ctx, "driver_ok", True):
+        rc, dmodel, merr = ctx.run_lines(build.model_exe(), ["unber_maxlevel"] + ["unber_st " + hx(c[1]) for c in deep], timeout=3600)
+        if rc != 0 or len(dmodel) != len(deep) + 1:
+            raise RuntimeError("model driver failed: rc=%s %s" % (rc, merr[-500:]))
+        if limit is not None and dmodel[0] != str(limit):
+            kdis.append({"kind": "correspondence", "name": "unber-nesting-limit", "op": "unber_maxlevel",
+                         "c": f"UNBER_MAX_NESTING_LEVEL {limit}", "model": dmodel[0]})
+        dmodel = dmodel[1:]
+        ctx.cov["evaluations"] += len(deep)
+    st = ctx.cov["correspondence"].setdefault("unber-deep", {"lines": 0, "disagreements": 0, "c_crashes": 0})
+    deep_seen = {}
+    for i, ((name, x, want, _), (rc, _, err)) in enumerate(zip(deep, dres)):
         nP += 1
         ctx.count_nontrivial(("deep", name, rc))
+        real = unber_status(rc, err)
+        deep_seen[name] = real
+        if dmodel is not None:
+            st["lines"] += 1
+            ms = dmodel[i].split(" ")[0]
+            if real.startswith("CRASH"): st["c_crashes"] += 1
+            if not same_status(real, ms):
+                st["disagreements"] += 1
+                kdis.append({"kind": "correspondence", "name": "unber-deep", "op": "unber_st <" + name + ">", "c": real, "model": ms})
         c = crash_summary(rc, err)
         if c:
             pfail.append(("crash", f"unber died on {name}: {c}", {"input": name, "stderr": err[:2000]}))
-    # the known stack-overflow region (KF_STACK): replay the witness
-    wname = "3080 x 100000"
-    rc, _, err = run_tool([unber, "-p", "-"], b"\x30\x80" * 100000, discard_stdout=True)
-    c = crash_summary(rc, err)
-    ctx.cov["evaluations"] += len(deep) + 1
-    if c:
-        stack = ("stack-overflow" in err) or rc in (-11, 139) or "SEGV" in err
-        if not (stack and ctx.match_finding(lambda f: f["id"] == KF_STACK)):
-            pfail.append(("crash", f"unber died on nesting depth 100000: {c}", {"input": wname, "stderr": err[:2000]}))
-    ctx.cov["predicate"]["deep_nesting"] = {"cases": len(deep) + 1, "max_depth_required_to_survive": 10000,
-                                            "witness_depth_100000": "died: " + c if c else "exited normally"}
+        elif limit is None and want != "fail":
+            pass      # a tree without a nesting limit: only "exits by itself" can be demanded (the model disagreement is reported by K)
+        elif not (real == want or (want == "fail" and real.startswith("fail:"))):
+            pfail.append(("nesting", f"unber on {name}: {real} ({err.strip()[:160]}), the nesting rule (limit {L}) demands {want}",
+                          {"input": name, "stderr": err[:500]}))
+    ctx.cov["evaluations"] += len(deep)
+    ctx.cov["predicate"]["deep_nesting"] = {"cases": len(deep), "nesting_limit": limit, "small_stack_kb": SMALL_STACK_KB, "outcomes": deep_seen}
 
     # ---------------- real enber on unber's texts (+ mutated texts for K)
     eruns = [(kind, x, t, True) for kind, x, t in texts_for_enber]
@@ -554,6 +619,7 @@ def run(ctx):
 
     # ---------------- classification
     ctx.cov["predicate"]["total_failures"] = len(pfail)
+    pfail.sort(key=lambda p: p[0] != "crash")            # memory errors first (stable)
     for kind, what, rep in pfail[:5]:
         ctx.violation("C20 predicate fails on the real tools: " + what, dict(rep, kind=kind))
     for d in kdis[:50]:
@@ -562,7 +628,9 @@ def run(ctx):
         ctx.log(f"correspondence: {len(kdis)} disagreements, first: {json.dumps(kdis[0])[:1500]}")
     ctx.assumptions += ["unber is run as `unber -p -` (stdin), enber as `enber -`; texts fed to enber are NUL-free",
                         "sanitizer leak detection is off (exit-time leaks are not memory errors)",
-                        "stack depth is runtime behaviour: nesting 10000 must survive, the model has no stack"]
+                        "stack use is runtime behaviour the model does not have: the model bounds the recursion level (theorem "
+                        "unber_levels_bounded); that UNBER_MAX_NESTING_LEVEL + 1 frames of process_deeper fit the stack is measured "
+                        f"(nesting at the limit under a {SMALL_STACK_KB} KB stack, ASan build)"]
 
 def replay(ctx, path):
     r = json.load(open(path))
